@@ -101,6 +101,7 @@ def cases(draw, convs=S.ALL_CONVS):
                           "dtype": draw(st.sampled_from(["f8", "f4", "i4"])), "fill": None})
     spec["vars"] = variables
     spec["mode"] = draw(st.sampled_from(["raw", "raw", "dask", "file"]))
+    spec.update(draw(S.storage_options(conv)))
     return {"spec": spec,
             "vertices": draw(st.lists(VERTEX, min_size=2, max_size=6)),
             "direction": draw(st.integers(0, len(DIRECTIONS) - 1))}
